@@ -22,14 +22,15 @@
 (***************************************************************************)
 EXTENDS Writes
 
-CONSTANTS LockTip
+CONSTANTS LockTip, MaxCrashes
 
 VARIABLES lc,      \* light-client thread: [pc, k]  pc: "idle" "begin" "locked" "unlocked" "stored" "done"
           ft,      \* filter thread: [pc, m, pl, labels, k]  pc: "idle" "pre" "locked" "done"
           lock,    \* "free" | "lc" | "ft"
-          phase    \* 1: the race; 2: sequential honest traffic of the new branch
+          phase,   \* 1: the race; 2: sequential honest traffic of the new branch
+          crashes
 
-cVars == <<allVars, wctx, lc, ft, lock, phase>>
+cVars == <<allVars, wctx, lc, ft, lock, phase, crashes>>
 
 P == "p1"
 Blk(par, n) == [parent |-> par, num |-> n, diff |-> 2, td |-> 2 * (n + 1), ttd |-> 2 * (n + 1),
@@ -75,9 +76,9 @@ CInit ==
             /\ cells = ix.cells /\ hist = ix.hist /\ txs = ix.txs /\ hdrs = ix.hdrs /\ nums = ix.nums
     /\ cpFinal = <<1>> /\ cached = <<0, <<>> >> /\ pf = [p \in {P} |-> PfOf(OldLatest)]
     /\ fetchH = {} /\ fetchT = {} /\ over = {} /\ subst = {}
-    /\ wctx = <<>> /\ lc = LcIdle /\ ft = FtIdle /\ lock = "free" /\ phase = 1
+    /\ wctx = <<>> /\ lc = LcIdle /\ ft = FtIdle /\ lock = "free" /\ phase = 1 /\ crashes = 0
 
-Frame == UNCHANGED <<world, cfg, now, cached, fetchH, fetchT, subst, startOf, cpFinal>> /\ out' = NoOut
+Frame == UNCHANGED <<world, cfg, now, cached, fetchH, fetchT, subst, startOf, cpFinal, crashes>> /\ out' = NoOut
 StoreSame == UNCHANGED <<scripts, minF, mdb, tip, tipTD, lastN>> /\ IxUnchanged
 
 (***************************************************************************)
@@ -85,7 +86,9 @@ StoreSame == UNCHANGED <<scripts, minF, mdb, tip, tipTD, lastN>> /\ IxUnchanged
 (***************************************************************************)
 LBegin ==   \* the proof passed every check; get_last_state / get_last_n_headers are read (no lock)
     /\ phase = 1 /\ lc.pc = "idle"
-    /\ lc' = [pc |-> "begin", k |-> 1, labels |-> TLabels(TipCtx)]
+    \* (after a crash that came after the tip update the same proof does not move the tip: only the prove state)
+    /\ lc' = IF tip = NewTip THEN [pc |-> "stored", k |-> 1, labels |-> <<>>]
+              ELSE [pc |-> "begin", k |-> 1, labels |-> TLabels(TipCtx)]
     /\ Frame /\ StoreSame /\ UNCHANGED <<peer, pf, mmem, over, wctx, ft, lock, phase>>
 
 LLock ==    \* rollback_to_fork_number takes the write lock
@@ -113,7 +116,7 @@ LProve ==   \* Peers::update_prove_state: the peer is proven on the new branch, 
     /\ peer' = [peer EXCEPT ![P] = ReadyPeer(NewTip, <<5, 8, 9>>)]
     /\ pf' = [pf EXCEPT ![P].latest = <<0, <<>> >>]
     /\ lc' = [lc EXCEPT !.pc = "done"]
-    /\ lock' = IF LockTip THEN "free" ELSE lock
+    /\ lock' = IF LockTip /\ lock = "lc" THEN "free" ELSE lock
     /\ Frame /\ StoreSame /\ UNCHANGED <<mmem, over, wctx, ft, phase>>
 
 (***************************************************************************)
@@ -121,6 +124,17 @@ LProve ==   \* Peers::update_prove_state: the peer is proven on the new branch, 
 (* since before the peer reorganised, or unsolicited)                      *)
 (***************************************************************************)
 OldBatch(start, n) == [start |-> start, fs |-> [i \in 1..n |-> start + i], hs |-> [i \in 1..n |-> start + i]]
+
+\* process death before any write of either thread (C08) and restart: the threads, the lock, the in-memory map and
+\* the peer's session are gone; the peer connects again and sends the same proof
+Crash ==
+    /\ phase = 1 /\ crashes < MaxCrashes /\ crashes' = crashes + 1
+    /\ lc.pc \notin {"idle", "done"} \/ ft.pc \notin {"idle", "done"}
+    /\ lc' = LcIdle /\ ft' = [FtIdle EXCEPT !.pc = "done"] /\ lock' = "free" /\ mmem' = {}
+    /\ peer' = [peer EXCEPT ![P] = NonePeer]
+    /\ pf' = [pf EXCEPT ![P].latest = <<0, <<>> >>]
+    /\ UNCHANGED <<world, cfg, now, cached, fetchH, fetchT, subst, startOf, cpFinal, over, wctx, phase>> /\ out' = NoOut
+    /\ StoreSame
 
 FBegin ==   \* reads before the lock: scripts registered, the peer has a prove state
     /\ phase = 1 /\ ft.pc = "idle"
@@ -186,21 +200,21 @@ P2Filters ==
            IN /\ mdb' = IF must = {} THEN mdb ELSE Append(mdb, rec)
               /\ out' = NoOut
               /\ RecvFilters(P, m)
-    /\ UNCHANGED <<cached, pf, fetchH, fetchT, wctx, lc, ft, lock, phase>>
+    /\ UNCHANGED <<cached, pf, fetchH, fetchT, wctx, lc, ft, lock, phase, crashes>>
 P2Proof ==
     /\ phase = 2 /\ mmem # {} /\ \E e \in mmem : ~e[2]
     /\ out' = NoOut
     \* only blocks of the proven chain can be proved
     /\ RecvBlocksProofMatched(P, [ok |-> TRUE, get |-> TRUE, found |-> {e[1] : e \in {x \in mmem : IsAnc(world, x[1], tip)}}])
-    /\ UNCHANGED <<peer, pf, fetchH, fetchT, over, subst, wctx, lc, ft, lock, phase>> /\ IxUnchanged
+    /\ UNCHANGED <<peer, pf, fetchH, fetchT, over, subst, wctx, lc, ft, lock, phase, crashes>> /\ IxUnchanged
 P2Block ==
     /\ phase = 2
     /\ \E e \in mmem : e[2] /\ ~e[3] /\ (out' = NoOut /\ RecvBlock(P, e[1], "true"))
-    /\ UNCHANGED <<pf, fetchH, fetchT, wctx, lc, ft, lock, phase>>
+    /\ UNCHANGED <<pf, fetchH, fetchT, wctx, lc, ft, lock, phase, crashes>>
 P2Tick ==
-    /\ phase = 2 /\ out' = NoOut /\ FilterTick0 /\ UNCHANGED <<cached, pf, wctx, lc, ft, lock, phase>>
+    /\ phase = 2 /\ out' = NoOut /\ FilterTick0 /\ UNCHANGED <<cached, pf, wctx, lc, ft, lock, phase, crashes>>
 
-CNext == LBegin \/ LLock \/ LWrite \/ LUnlock \/ LProve \/ FBegin \/ FLock \/ FWrite \/ FEnd
+CNext == Crash \/ LBegin \/ LLock \/ LWrite \/ LUnlock \/ LProve \/ FBegin \/ FLock \/ FWrite \/ FEnd
          \/ Settle \/ P2Filters \/ P2Proof \/ P2Block \/ P2Tick
 CSpec == CInit /\ [][CNext]_cVars
 
